@@ -30,6 +30,7 @@ type coreGen struct {
 	nmatch    int
 	topCall   bool     // the next call generated is a statement of its own
 	gone      []string // variables first created inside a match arm or a call: unknown again afterwards
+	probes    bool     // this program carries the fixed block of probe statements (every third program does)
 	bound     []string // names bound by the patterns of the match arms around the code being generated
 }
 
@@ -871,6 +872,50 @@ func strs2any(ss []string) []any {
 	return out
 }
 
+// probeStmts: a fixed block of statements, one per interplay that a random program hits only now and then
+// (each is explained where the random generator produces the same form).
+func (g *coreGen) probeStmts() []any {
+	m := func(n Node) map[string]any { return map[string]any(n) }
+	pr := func(args ...any) map[string]any { return m(cn("print", "args", args)) }
+	str := func(v string) map[string]any { return m(cn("str", "v", v)) }
+	vr := func(n string) map[string]any { return m(cn("var", "n", n)) }
+	num := func(v int) map[string]any { return m(g.num(v)) }
+	ex := func(e Node) map[string]any { return m(cn("expr", "e", m(e))) }
+	call := func(f string, args ...any) map[string]any {
+		if args == nil {
+			args = []any{}
+		}
+		return m(cn("call", "f", f, "args", args))
+	}
+	var out []any
+	// a for-in whose body changes an element / member visited later, pushes, re-assigns the iterated variable
+	out = append(out, m(cn("expr", "e", m(cn("asg", "n", "pa", "op", "=", "e", m(cn("arr", "items", []any{num(1), num(2), num(3)})))))))
+	out = append(out, m(cn("forin", "v1", "pe", "v2", "pi", "n", "pa", "b", m(cn("block", "b", []any{pr(str("pa"), vr("pe"), vr("pi")),
+		ex(cn("asgidx", "n", "pa", "key", num(-1), "op", "=", "e", num(30))), ex(cn("mcall", "n", "pa", "m", "push", "args", []any{num(4)}))})))))
+	out = append(out, m(cn("forin", "v1", "pk", "v2", "pv", "n", "o0", "b", m(cn("block", "b", []any{pr(str("po"), vr("pk"), vr("pv")),
+		ex(cn("asgidx", "n", "o0", "key", str("b"), "op", "=", "e", num(31)))})))))
+	out = append(out, m(cn("forin", "v1", "pa", "v2", "", "n", "pa", "b", m(cn("block", "b", []any{pr(str("self"), vr("pa"))})))))
+	// an object that gains a member through another reference and through a parameter between two for-ins
+	out = append(out, m(cn("forin", "v1", "pk", "v2", "", "n", "o0", "b", m(cn("block", "b", []any{pr(str("k1"), vr("pk"))})))))
+	out = append(out, ex(cn("asgidx", "n", "oa", "key", str("c"), "op", "=", "e", num(32))))
+	out = append(out, ex(cn("call", "f", "ak", "args", []any{vr("oa"), str("n")})))
+	out = append(out, m(cn("forin", "v1", "pk", "v2", "pv", "n", "o0", "b", m(cn("block", "b", []any{pr(str("k2"), vr("pk"), vr("pv"))})))))
+	// the call probes
+	out = append(out, pr(str("hh"), m(cn("bin", "op", "+", "l", call("hr"), "r", call("hb", num(2)))), m(cn("bin", "op", "*", "l", call("hr"), "r", call("hb", num(1))))))
+	out = append(out, pr(str("ack"), call("fack", num(2), num(1))))
+	out = append(out, pr(str("od"), call("od", call("gm", vr("o0"), str("k")), num(6)), vr("o0")))
+	out = append(out, pr(str("bmp"), call("bmp", m(cn("asg", "n", "g2", "op", "=", "e", num(4))))), pr(str("bmp2"), vr("g2")))
+	out = append(out, ex(cn("call", "f", "pr", "args", []any{num(2)})), pr(str("pr2"), call("pr", num(2))))
+	// bound names are values; a literal-only match evaluated with descending subjects
+	out = append(out, m(cn("expr", "e", m(cn("match", "e", vr("r1"), "cases", []any{m(cn("case", "pats", []any{m(cn("parr", "items", []any{m(cn("pid", "n", "q1")), m(cn("pid", "n", "q2")), m(cn("pid", "n", "q3"))}))},
+		"bk", "block", "b", m(cn("block", "b", []any{ex(cn("asg", "n", "q1", "op", "=", "e", num(40))), ex(cn("inc", "n", "q2", "op", "++", "post", true)), pr(str("q"), vr("q1"), vr("q2"), vr("r1"))}))))})))))
+	ov := g.overlapMatch()
+	ov["e"] = m(cn("bin", "op", "-", "l", num(3), "r", vr("pz2")))
+	out = append(out, m(cn("for", "init", m(cn("asg", "n", "pz2", "op", "=", "e", num(0))), "c", m(cn("bin", "op", "<", "l", vr("pz2"), "r", num(4))),
+		"post", m(cn("inc", "n", "pz2", "op", "++", "post", true)), "b", m(cn("block", "b", []any{pr(str("ov"), m(ov))})))))
+	return out
+}
+
 func (g *coreGen) program() Node {
 	var fns []any
 	for _, name := range []string{"fa", "fb", "fc"}[:g.r.Intn(4)] {
@@ -904,6 +949,9 @@ func (g *coreGen) program() Node {
 	}
 	// oa is a second reference to the object o0 (objects are shared; arrays are not aliased here: alias-length)
 	stmts = append(stmts, map[string]any(cn("expr", "e", map[string]any(cn("asg", "n", "oa", "op", "=", "e", map[string]any(cn("var", "n", "o0")))))))
+	if g.probes {
+		stmts = append(stmts, g.probeStmts()...)
+	}
 	n := 1 + g.r.Intn(4)
 	for i := 0; i < n; i++ {
 		stmts = append(stmts, map[string]any(g.stmt(3)))
@@ -1246,7 +1294,7 @@ func checkCore(c *Ctx, n int, seedMix int64) {
 	progs := make([]Node, n)
 	jobs := make([]Job, n)
 	for i := range progs {
-		g := &coreGen{r: rng}
+		g := &coreGen{r: rng, probes: i%3 == 0}
 		// normalise through JSON so that the renderer and the model see the same tree
 		raw, _ := json.Marshal(g.program())
 		progs[i] = decodeNode(raw)
